@@ -2,5 +2,6 @@ SPECIFICATION Spec
 CONSTANT MaxLines = 4
 CONSTANT Mode = "collect"
 CONSTANT MaxErrs = 2
+CONSTANT PrefixIdx <- NoPrefixIdx
 CONSTRAINT Constraint
 CHECK_DEADLOCK FALSE
